@@ -48,6 +48,37 @@ def run(ck: Check) -> None:
     ck.floor("E", 2)
 
 
+def _ct_roles(callee: FuncModel) -> dict[str, str]:
+    """the parameters of _create_transitions by what is done with them (robust to reordering / keyword-only / renaming)"""
+    f = callee.f
+    ps = f.params()
+    roles: dict[str, str] = {}
+    for n in own_walk(f.node):
+        if isinstance(n, ast.Call) and callee_name(n) == "optimized_recursive_dnf_generator" and n.args and isinstance(n.args[0], ast.Name) \
+                and n.args[0].id in ps:
+            roles["bdd"] = n.args[0].id
+        if isinstance(n, ast.Call) and callee_name(n) == "add_node":
+            for k in n.keywords:
+                if k.arg == "change" and isinstance(k.value, ast.Name) and k.value.id in ps:
+                    roles["var"] = k.value.id
+    for n in own_walk(f.node):
+        if isinstance(n, ast.Subscript) and isinstance(n.value, ast.Name) and n.value.id in ps and "var" in roles \
+                and text(n.slice) == roles["var"]:
+            roles["places"] = n.value.id
+    # the direction flag: a parameter that is tested as a Boolean
+    for n in own_walk(f.node):
+        t = n.test if isinstance(n, (ast.If, ast.IfExp)) else None
+        while isinstance(t, ast.UnaryOp) and isinstance(t.op, ast.Not):
+            t = t.operand
+        if isinstance(t, ast.Name) and t.id in ps and t.id not in roles.values():
+            roles["up"] = t.id
+    if "up" not in roles and "go_up" in ps:
+        roles["up"] = "go_up"
+    if set(roles) != {"bdd", "var", "places", "up"}:
+        raise AnalysisError(f"anchor vanished: roles of the parameters of _create_transitions ({roles})")
+    return roles
+
+
 def a(ck: Check) -> None:
     """network_to_petrinet, read symbolically: what is passed to _create_transitions and stored in the place table."""
     from .symstr import SymEval
@@ -59,15 +90,16 @@ def a(ck: Check) -> None:
     calls = [n for n in own_walk(f.node) if isinstance(n, ast.Call) and callee_name(n) == "_create_transitions"]
     callee = ck.prog.fm(PN, "_create_transitions")
     cps = callee.f.params()
+    roles = _ct_roles(callee)
     probs = []
     seen = set()
     places_tok = None
     for c in calls:
         cn = fm.cfgn(c)
         arg = {p_: se.val(call_arg(c, i, p_), cn) if call_arg(c, i, p_) is not None else None for i, p_ in enumerate(cps)}
-        upv = call_arg(c, cps.index("go_up"), "go_up") if "go_up" in cps else None
-        bdd = arg.get(cps[4])
-        places_tok = arg.get(cps[2])
+        upv = call_arg(c, cps.index(roles["up"]), roles["up"])
+        bdd = arg.get(roles["bdd"])
+        places_tok = arg.get(roles["places"])
         # F = BDD of the update function of VAR, X = BDD of VAR, in one symbolic context
         def attr_call(x, name):
             return isinstance(x, ast.Call) and isinstance(x.func, ast.Attribute) and x.func.attr == name
@@ -78,7 +110,7 @@ def a(ck: Check) -> None:
                 y, at2 = fm.deref_at(x.func.value, at)
                 return y, at2, True
             return x, at, False
-        e0, at0 = fm.deref_at(call_arg(c, 4, cps[4]), cn)
+        e0, at0 = fm.deref_at(call_arg(c, cps.index(roles["bdd"]), roles["bdd"]), cn)
         if not (attr_call(e0, "l_and") and len(e0.args) == 1):
             probs.append(f"transitions are built from `{bdd}`, which is not a conjunction of the update function and the variable")
             continue
@@ -109,7 +141,7 @@ def a(ck: Check) -> None:
                 probs.append(f"down-transitions are built from `{bdd}`, expected NOT f AND x")
         else:
             probs.append("go_up is not a constant")
-        if arg.get(cps[3]) != f"{net}.get_variable_name({VAR})":
+        if arg.get(roles["var"]) != f"{net}.get_variable_name({VAR})":
             probs.append("transitions are created for another variable")
         pc = se.cond(cn, local=True)
         if not logic.equivalent(pc, logic.Not(logic.B(f"none:{net}.get_update_function({VAR})"))):
@@ -157,13 +189,12 @@ def b(ck: Check) -> None:
     fm = ck.prog.fm(PN, "_create_transitions")
     f = fm.f
     ps = f.params()
-    if "go_up" not in ps or len(ps) < 5:
-        raise AnalysisError("anchor vanished: parameters of _create_transitions")
-    places_p, var_p, bdd_p = ps[2], ps[3], ps[4]
+    roles = _ct_roles(fm)
+    places_p, var_p, bdd_p, up_p = roles["places"], roles["var"], roles["bdd"], roles["up"]
     move_probs, read_probs, impl_probs = [], [], []
     tnames = {}
     for up in (True, False):
-        g = _spec_model(ck.prog, fm, {"go_up": up})
+        g = _spec_model(ck.prog, fm, {up_p: up})
         se = SymEval(g)
         label = "an up-transition" if up else "a down-transition"
         nodes_t = [n for n in own_walk(g.f.node) if isinstance(n, ast.Call) and callee_name(n) == "add_node"
